@@ -242,3 +242,20 @@ def install4(tr):
     tm["Skip"] = itermodels.t_adaptor("Skip")
     tm["FilterMap"] = itermodels.t_adaptor("FilterMap")
     tm["Rev"] = t_rev4
+
+
+# ---- `for x in &slice` ---------------------------------------------------------------------------------------------------------------
+_old_vec_into_iter = REG.lookup("<Vec as IntoIterator>::into_iter")
+
+
+def m_into_iter_dispatch(tr, c):
+    try:
+        d = c.dest()
+    except TranslateError:
+        d = None
+    if d is not None and d.node.kind == "struct" and d.node.tag == "SliceIter":
+        return models3.m_slice_iter(tr, c)          # <&[T] as IntoIterator>::into_iter == slice.iter()
+    return _old_vec_into_iter(tr, c)
+
+
+REG.add("<Vec as IntoIterator>::into_iter", m_into_iter_dispatch, "by-value Vec iteration, or slice.iter() when the source is a borrowed slice")
